@@ -1022,7 +1022,7 @@ func (c *compiler) doOptimize(in []instruction) []instruction {
 		case n < len(in)-1 && in[n].Code == codePush && in[n+1].Code == codeAdd:
 			out = append(out, instruction{Pos: in[n+1].Pos, Code: codeIncDec, A: in[n].A})
 			n += 1
-		case n < len(in)-1 && in[n].Code == codePush && in[n+1].Code == codeSub:
+		case n < len(in)-1 && in[n].Code == codePush && in[n+1].Code == codeSub && in[n].A != 0: // x - 0 is not x + 0 for x = -0.0
 			out = append(out, instruction{Pos: in[n+1].Pos, Code: codeIncDec, A: -in[n].A})
 			n += 1
 
